@@ -43,4 +43,57 @@ MUTANTS = [
      "    def depends_on_result_in_sandbox(self) -> bool:\n        return True\n\n"
      "    def _exit_identifier_printer(self) -> ProcOutputFile:\n        return ProcOutputFile.STDOUT",
      '_ResultReporterForPreserveAndPrintSandboxDir.report : ensures['),
+    ('c08-duplicate-definition-allowed', 'C08', 'exactly_lib/execution/impl/symbol_validation.py',
+     "    if symbol_table.contains(definition.name):", "    if False and symbol_table.contains(definition.name):",
+     '_validate_symbol_definition : ensures[defined-once'),
+    ('c08-definition-visible-to-its-own-references', 'C08', 'exactly_lib/execution/impl/symbol_validation.py',
+     "    else:\n        for referenced_value in definition.references:",
+     "    else:\n        symbol_table.add(definition.symbol_table_entry)\n"
+     "        for referenced_value in definition.references:",
+     '_validate_symbol_definition : loop#0 invariant[entry]'),
+    ('c08-validation-continues-after-failure', 'C08', 'exactly_lib/execution/impl/symbol_validation.py',
+     "        result = validate_symbol_usage(symbol_usage, symbols)\n        if result is not None:\n"
+     "            return result\n    return None",
+     "        result = validate_symbol_usage(symbol_usage, symbols)\n    return None",
+     'validate_symbol_usages : loop#0 invariant[preserved]'),
+    ('c08-phases-do-not-share-the-table', 'C08',
+     'exactly_lib/execution/partial_execution/impl/symbol_validation.py',
+     "        self._validation_executor = ValidateSymbolsExecutor(self._symbols)",
+     "        self._validation_executor = ValidateSymbolsExecutor(self._symbols.copy())",
+     'SymbolsValidator.__init__ : ensures[one shared table]'),
+    ('c08-indirect-references-not-followed', 'C08',
+     'exactly_lib/type_val_deps/sym_ref/w_str_rend_restrictions/reference_restrictions.py',
+     "            result = self._check_indirect(symbol_table,\n"
+     "                                          path_to_referring_symbol + (reference.name,),\n"
+     "                                          container.sdv.references)\n"
+     "            if result is not None:\n                return result",
+     "            pass",
+     '_check_indirect : loop#0 invariant[preserved]'),
+    ('c08-list-in-string-joined-by-comma', 'C08', 'exactly_lib/type_val_deps/types/string_/strings_ddvs.py',
+     "        return ' '.join(value)", "        return ','.join(value)",
+     '_StringFragmentDdvFromDirDependentValue.value_of_any_dependency : loop#join#0 invariant[preserved]'),
+    ('c11-expansion-after-the-change', 'C11', 'exactly_lib/impls/instructions/multi_phase/environ/impl.py',
+     "        environ[self._name] = _expand_vars(self._value, environ)",
+     "        environ[self._name] = ''\n        environ[self._name] = _expand_vars(self._value, environ)",
+     'ModifierOfSet.modify : ensures['),
+    ('c11-unknown-variable-not-empty', 'C11', 'exactly_lib/impls/instructions/multi_phase/environ/impl.py',
+     "        except KeyError:\n            return ''", "        except KeyError:\n            return reference",
+     '_expand_vars : loop#0 invariant[preserved]'),
+    ('c11-act-applier-changes-non-act-set', 'C11', 'exactly_lib/impls/instructions/multi_phase/environ/impl.py',
+     "        modifier.modify(self._setup_phase_settings.environ)",
+     "        modifier.modify(self._instruction_settings.environ())",
+     'ModifierApplierForSetupPhase.apply : frame['),
+    ('c11-environments-computed-once', 'C11', 'exactly_lib/execution/partial_execution/impl/executor.py',
+     "        for instruction_number in itertools.count(1):\n"
+     "            yield self._post_sds_environment(\n"
+     "                self._phase_tmp_space_factory.instruction__main(phase, instruction_number),\n"
+     "                self.__post_sds_symbol_table,\n            )",
+     "        the_env = self._post_sds_environment(\n"
+     "                self._phase_tmp_space_factory.instruction__main(phase, 1),\n"
+     "                self.__post_sds_symbol_table,\n            )\n"
+     "        for instruction_number in itertools.count(1):\n            yield the_env",
+     'two_instructions : ensures[the next instruction sees'),
+    ('c11-act-process-gets-non-act-set', 'C11', 'exactly_lib/impls/actors/util/atc_proc_exe_settings.py',
+     "        execution_input.environ,", "        environment.proc_exe_settings.environ,",
+     'for_atc : ensures['),
 ]
